@@ -239,6 +239,7 @@ type scriptTransport struct {
 	failSend   int
 	failRecv   bool
 	holdNext   bool
+	holdSend   bool // the next send blocks (inside the sender lock) until fG
 	hold       chan struct{}
 	live       int32 // messages created and not yet released
 	recvLive   int32
@@ -283,6 +284,22 @@ func (t *scriptTransport) NewMessage(ctx context.Context) (rpccp.Message, func()
 		if msg.CapTable != nil && rmsg.Which() != rpccp.Message_Which_unimplemented {
 			// (an Unimplemented echo copies the offending message, interface pointers included; harmless)
 			t.env.ev("!captable-not-nil-at-send")
+		}
+		t.mu.Lock()
+		var hs chan struct{}
+		if t.holdSend {
+			t.holdSend = false
+			if t.hold == nil {
+				t.hold = make(chan struct{})
+			}
+			hs = t.hold
+		}
+		t.mu.Unlock()
+		if hs != nil {
+			select {
+			case <-hs:
+			case <-time.After(10 * time.Second):
+			}
 		}
 		t.mu.Lock()
 		if t.failSend > 0 {
@@ -342,7 +359,9 @@ func (t *scriptTransport) RecvMessage(ctx context.Context) (rpccp.Message, capnp
 		t.mu.Lock()
 		if t.holdNext {
 			t.holdNext = false
-			t.hold = make(chan struct{})
+			if t.hold == nil {
+				t.hold = make(chan struct{})
+			}
 			hold = t.hold
 		}
 		t.mu.Unlock()
@@ -369,6 +388,7 @@ func (t *scriptTransport) unhold() {
 		t.hold = nil
 	}
 	t.holdNext = false
+	t.holdSend = false
 	t.mu.Unlock()
 }
 
@@ -969,8 +989,8 @@ func (e *rpcEnv) localOp(op string) string {
 					pass = e.handles[n]
 				}
 			}
-			if pass == nil {
-				return "skip"
+			if pass == nil || !pass.IsValid() {
+				return "skip" // (a capability whose only reference went away with a result cannot be passed any more)
 			}
 		}
 		id := len(e.lcalls)
@@ -1236,6 +1256,8 @@ func execRPCScript(script string, bootstrap bool) string {
 				e.t.failRecv = true
 			case 'H':
 				e.t.holdNext = true // the release of the next received message waits for fG
+			case 'W':
+				e.t.holdSend = true // the next send waits for fG
 			}
 			e.t.mu.Unlock()
 			if op[1] == 'G' {
@@ -1500,7 +1522,7 @@ func rpcOracles(trace string) []string {
 	retRefs := map[int]map[int]int{} // answer id -> export id -> references its Return carried
 	finRel := map[int]bool{}         // answer ids finished with releaseResultCaps before their Return
 	finished := map[int]bool{}
-	stalls := strings.Contains(trace, "fH") || strings.Contains(trace, "lS") || strings.Contains(trace, "lQ")
+	stalls := strings.Contains(trace, "fH") || strings.Contains(trace, "fW") || strings.Contains(trace, "lS") || strings.Contains(trace, "lQ")
 	// hostile and fault ops make the counts uncertain: the table comparison is only made on clean histories
 	dirty := strings.Contains(trace, "pH") || strings.Contains(trace, ";f") || strings.HasPrefix(trace, "f") ||
 		strings.Contains(trace, "pU") || strings.Contains(trace, "pJ") || strings.Contains(trace, "pD")
@@ -1874,6 +1896,9 @@ var rpcDirected = []string{
 	"1lB,fH,pRQ0:boot:s1,lB,fG,pRQ0:boot:s1",                                         // a new question while the Return's Finish is still to be sent
 	"1lB,lB,pRQ0:boot:s1,lS0:0,lr0,pRQ0:boot:s1,fG,lR1",                               // a reference to an import arrives while its last handle is being released
 	"1lB,lB,pRQ0:boot:s1,lS0:0,lr0,pRQ0:boot:s1,lR1,fG",                               // … and the newer client goes away first
+	"1lB,pRQ0:boot:s1,lC0:0,fN1,lX0,pRQ0:ok,lC0:0,lC0:0",                              // the Finish of a cancelled call cannot be sent; its Return arrives; new calls
+	"1lB,pRQ0:boot:s1,lC0:0,fW,lX0,pRQ0:ok,fG,lC0:0,lZ",                               // the Return of a cancelled call arrives while its Finish is still being written
+	"1lB,pRQ0:boot:s1,lC0:0,fW,lA0:0,lX0,pRQ0:ok,fG,lZ",                               // … or while another call holds the sender lock
 }
 
 func genRPCCheck(rec *lib.Rec, r *lib.Rng, n int, hostile, faults bool) {
